@@ -66,9 +66,9 @@ pub open spec fn receiver_ok(c: AccessControlReceiverCondition, i: &Identity, e:
 }
 pub open spec fn target_ok(c: AccessControlTargetCondition, e: &EntrySealedCommitted) -> bool { match c { AccessControlTargetCondition::Scope(f) => e.matches_filter(&f) } }
 // a read grant of attribute `a` on entry `e` for identity `i`: a profile whose receiver and target both match and that lists `a`
-pub open spec fn acp_grants_read(acps: &[AccessControlSearchResolved], i: &Identity, e: &EntrySealedCommitted, a: Attribute) -> bool {
-    exists|k: int, j: int| 0 <= k < acps@.len() && receiver_ok(acps@[k].receiver_condition, i, e) && target_ok(acps@[k].target_condition, e)
-        && 0 <= j < acps@[k].acp.attrs@.len() && #[trigger] acps@[k].acp.attrs@[j] == a
+pub open spec fn acp_grants_read(acps: Seq<AccessControlSearchResolved>, i: &Identity, e: &EntrySealedCommitted, a: Attribute) -> bool {
+    exists|k: int, j: int| 0 <= k < acps.len() && receiver_ok(acps[k].receiver_condition, i, e) && target_ok(acps[k].target_condition, e)
+        && 0 <= j < acps[k].acp.attrs@.len() && #[trigger] acps[k].acp.attrs@[j] == a
 }
 
 pub assume_specification<T, U>[ Option::<T>::zip ](a: Option<T>, b: Option<U>) -> (r: Option<(T, U)>)
@@ -93,5 +93,59 @@ pub open spec fn builtin_rule_applies(i: &Identity, e: &EntrySealedCommitted) ->
 //@extract search_applications_filter_entry
 //@extract search_sync_account_filter_entry
 //@extract apply_search_access
+
+//@include shims/access_resolve.rs
+// ---- the drivers: search_related_acp / filter_entries (access/mod.rs) ----
+// AccessControlSearch.attrs is a BTreeSet<Attribute>; `is_disjoint` against the requested attribute set
+impl KvxAttrVec { #[verifier::external_body] pub fn is_disjoint(&self, o: &BTreeSet<Attribute>) -> (r: bool) ensures r == self@.to_set().disjoint(o@) { unimplemented!() } }
+// Filter::get_attr_set (filter.rs): the attributes named by the terms of the original filter — uninterpreted observer
+impl Filter<FilterValid> { pub uninterp spec fn attr_set(&self) -> Set<Attribute>;
+    #[verifier::external_body] pub fn get_attr_set(&self) -> (r: BTreeSet<Attribute>) ensures r@ == self.attr_set() { unimplemented!() } }
+// statement level: a read grant "whose receiver and target both match that identity and that entry", over the profile state itself
+pub open spec fn entry_manager_matches(i: &Identity, e: &EntrySealedCommitted) -> bool {
+    e.refers(Attribute::EntryManagedBy) matches Some(m) && ((i.memberof() matches Some(g) && !g.disjoint(m)) || m.contains(i.uuid()))
+}
+pub open spec fn search_profile_matches(acp: &AccessControlProfile, ident: &Identity, e: &EntrySealedCommitted) -> bool {
+    &&& (receiver_matches_user(&acp.receiver, ident) || (acp.receiver is EntryManager && entry_manager_matches(ident, e)))
+    &&& (acp.target matches AccessControlTarget::Scope(f) && e.matches_filter(&resolved_filter(f, ident)))
+}
+pub open spec fn state_grants_read(st: Seq<AccessControlSearch>, i: &Identity, e: &EntrySealedCommitted, a: Attribute) -> bool {
+    exists|k: int, j: int| 0 <= k < st.len() && search_profile_matches(&st[k].acp, i, e) && 0 <= j < st[k].attrs@.len() && #[trigger] st[k].attrs@[j] == a
+}
+pub open spec fn related_search_ok(state: Seq<AccessControlSearch>, ident: &Identity, r: &AccessControlSearchResolved) -> bool {
+    exists|i: int| 0 <= i < state.len() && *r.acp == #[trigger] state[i] && conditions_resolved(ident, &state[i].acp.receiver, &state[i].acp.target, r.receiver_condition, r.target_condition)
+}
+pub proof fn lemma_search_lift(st: Seq<AccessControlSearch>, acps: Seq<AccessControlSearchResolved>, i: &Identity, e: &EntrySealedCommitted)
+    requires forall|k: int| 0 <= k < acps.len() ==> related_search_ok(st, i, &#[trigger] acps[k])
+    ensures forall|a: Attribute| acp_grants_read(acps, i, e, a) ==> state_grants_read(st, i, e, a)
+{
+    assert forall|a: Attribute| acp_grants_read(acps, i, e, a) implies state_grants_read(st, i, e, a) by {
+        let (k, j) = choose|k: int, j: int| 0 <= k < acps.len() && receiver_ok(acps[k].receiver_condition, i, e) && target_ok(acps[k].target_condition, e)
+            && 0 <= j < acps[k].acp.attrs@.len() && #[trigger] acps[k].acp.attrs@[j] == a;
+        assert(related_search_ok(st, i, &acps[k]));
+        let q = choose|q: int| 0 <= q < st.len() && *acps[k].acp == #[trigger] st[q] && conditions_resolved(i, &st[q].acp.receiver, &st[q].acp.target, acps[k].receiver_condition, acps[k].target_condition);
+        assert(search_profile_matches(&st[q].acp, i, e));
+        assert(st[q].attrs@[j] == a);
+    }
+}
+//@extract related_search_step
+#[verifier::external_body] pub fn kvx_related_search<'b>(state: &'b Vec<AccessControlSearch>, ident: &Identity, ident_memberof: Option<&BTreeSet<Uuid>>, cache: &mut ResolveFilterCacheReadTxn<'_>) -> (r: Vec<AccessControlSearchResolved<'b>>)
+    requires ident_memberof is Some == ident.memberof() is Some, ident_memberof matches Some(m) ==> m@ == ident.memberof()->Some_0
+    ensures forall|k: int| 0 <= k < r@.len() ==> related_search_ok(state@, ident, &#[trigger] r@[k]) { unimplemented!() }
+// `vec.into_iter().filter(f).collect::<Vec<_>>()`: the elements of the vector for which f returned true, in order (std documentation)
+#[verifier::external_body] #[verifier::reject_recursive_types(T)] pub struct KvxFiltered<T> { p: core::marker::PhantomData<T> }
+impl<T> KvxFiltered<T> { pub uninterp spec fn kept(&self) -> Seq<T>;
+    #[verifier::external_body] pub fn collect(self) -> (r: Vec<T>) ensures r@ == self.kept() { unimplemented!() } }
+#[verifier::external_body] pub fn kvx_into_filter<T, F: Fn(&T) -> bool>(v: Vec<T>, f: F) -> (r: KvxFiltered<T>)
+    requires forall|i: int| 0 <= i < v@.len() ==> f.requires((&#[trigger] v@[i],))
+    ensures forall|k: int| 0 <= k < r.kept().len() ==> v@.contains(#[trigger] r.kept()[k]) && f.ensures((&r.kept()[k],), true),
+            forall|i: int| 0 <= i < v@.len() && f.ensures((&#[trigger] v@[i],), true) && !f.ensures((&v@[i],), false) ==> r.kept().contains(v@[i]) { unimplemented!() }
+pub struct AcpTxn<'a> { pub search: Vec<AccessControlSearch>, pub cache: &'a u8 }
+impl<'a> AcpTxn<'a> {
+    pub fn get_search(&self) -> (r: &Vec<AccessControlSearch>) ensures *r == self.search { &self.search }
+    #[verifier::external_body] pub fn get_acp_resolve_filter_cache(&self) -> (r: &mut ResolveFilterCacheReadTxn<'a>) { unimplemented!() }
+//@extract search_related_acp
+//@extract filter_entries
+}
 }
 fn main(){}
